@@ -42,6 +42,7 @@ KindsOf(ids) == [i \in 1..Len(ids) |-> Kind(N, ids[i])]
 Op(e) ==
   /\ e.e = "op"
   /\ UNCHANGED b
+  /\ e.r # -2                  \* a panic is never an answer (panic events carry no other field)
   /\ (e.op # "root" => e.at = at)
   /\ CASE e.op = "root" -> Root(N, e.r)
        [] e.op = "first_child" -> DoFirstChild(N, e.r)
